@@ -263,14 +263,6 @@ Proof.
   - repeat constructor; simpl; intuition discriminate.
 Qed.
 
-Lemma typed_hints_by_computation l :
-  forallb (fun nh => match hint_type (snd nh) with Some _ => true | None => false end) l = true ->
-  typed_hints l.
-Proof.
-  intros H n h HI. rewrite forallb_forall in H. specialize (H _ HI). simpl in H.
-  destruct (hint_type h); [discriminate|discriminate H].
-Qed.
-
 Example C08_nv_all_types : all_types ex_robot.
 Proof.
   split; [|split].
